@@ -15,7 +15,7 @@
      finish_empty_rejected, parse_total, uvarint round trip, read_gt_least,
      iter_yields_abs, seek_iter_yields_above.
    See the end of the file for what is not proved. *)
-From GV Require Import Lib.Tactics Lib.Uvarint Lib.UvarintProofs PathDB.Index PathDB.IndexProofs PathDB.IndexReaderProofs PathDB.IndexMultiProofs.
+From GV Require Import Lib.Tactics Lib.Uvarint Lib.UvarintProofs PathDB.Index PathDB.IndexProofs PathDB.IndexReaderProofs PathDB.IndexMultiProofs PathDB.IndexDeleteProofs PathDB.IndexTrimProofs.
 Local Open Scope N_scope.
 
 (* LEB128: decoding an encoding gives the value and its length back, whatever follows *)
@@ -189,50 +189,118 @@ Theorem C19_prune_spec : forall i0 db bl tail,
 Proof. exact prune_spec. Qed.
 Print Assumptions C19_prune_spec.
 
-(* ---- all histories: [ihist db] = db is reached from the empty store by any
-   sequence of writer sessions (limit >= last id, non-empty ascending run above
-   the last id, next block id + run length below 2^32) and pruner runs with
-   arbitrary tails ---- *)
+(* indexDeleter.pop across blocks: fails exactly on id = 0 / id <> last; otherwise
+   removes exactly the last id - dropping the live block when it becomes empty and
+   reopening the previous one from the store - and keeps the invariant [idrepr] *)
+Theorem C19_index_pop : forall i0 db d pre id,
+  idrepr i0 db d pre -> id_abs d pre <> [] ->
+  (id = 0 -> id_pop db d id = Err EZeroId) /\
+  (id <> 0 -> id <> last (id_abs d pre) 0 -> id_pop db d id = Err EPopOrder) /\
+  (id = last (id_abs d pre) 0 ->
+   exists d' pre', id_pop db d id = Ok d' /\ idrepr i0 db d' pre' /\ id_abs d' pre' = removelast (id_abs d pre)).
+Proof. exact id_pop_spec. Qed.
+Print Assumptions C19_index_pop.
+
+(* newBlockWriter(finish(w), desc, limit) keeps exactly the ids <= limit
+   ([below limit l] = filter (<= limit) l, a prefix since l is ascending) *)
+Theorem C19_block_reopen_limit : forall b limit,
+  bw_reach b -> bw_abs b <> [] ->
+  exists b', new_block_writer (bw_finish b) (bw_desc b) limit = Ok b' /\ bw_reach b' /\
+             bw_abs b' = below limit (bw_abs b) /\ d_id (bw_desc b') = d_id (bw_desc b).
+Proof. exact new_block_writer_trim. Qed.
+Print Assumptions C19_block_reopen_limit.
+
+(* the shared open of newIndexWriter/newIndexDeleter with ANY limit (descriptor
+   trimming loop, block trimming, and the fall-back to the previous block when the
+   last one is emptied - /repo bb1fc7bf): the blocks kept plus the live block hold
+   exactly the ids <= limit; the live block is empty only if nothing is kept *)
+Theorem C19_index_open_limit : forall i0 db bl limit,
+  iok i0 bl -> stored db bl -> bl <> [] ->
+  exists pre bw dropped,
+    open_last db limit = Ok (map bw_desc pre, bw, dropped) /\
+    (exists rest, bl = pre ++ rest /\ rest <> []) /\ bw_reach bw /\
+    d_id (bw_desc bw) = i0 + N.of_nat (length pre) /\
+    iabs pre ++ bw_abs bw = below limit (iabs bl) /\ (bw_abs bw = [] -> pre = []) /\
+    (forall i, In i dropped -> i0 + N.of_nat (length pre) < i).
+Proof. exact open_last_trim. Qed.
+Print Assumptions C19_index_open_limit.
+
+(* ---- ALL histories.  [ihist3 db]: db is reached from the empty store by any
+   sequence of
+     - writer sessions: newIndexWriter with ANY limit, a non-empty run of uint64
+       ids ascending above the last id <= limit, finish (next block id + run
+       length below 2^32);
+     - deleter sessions: newIndexDeleter with ANY limit, pops of the then-last
+       ids (any number, possibly none = a pure reopen(limit)), finish;
+     - index pruner runs with ANY tail.
+   The refinement: the stored index is always a strictly ascending list l
+   (a sorted set), and
+     writer session   l  |->  below limit l ++ ids
+     deleter session  l  |->  keep,  where below limit l = keep ++ rev popped
+     pruner run       l  |->  a suffix l2 of l, l = l1 ++ l2, every id of l1 < tail,
+                              every id >= tail kept (block granularity: C19_prune_spec)
+   and the sessions always run (no error, panic or fuel exhaustion). ---- *)
 Theorem C19_history_invariant : forall db,
-  ihist db -> exists i0 bl, iok i0 bl /\ stored db bl.
-Proof. exact ihist_inv. Qed.
+  ihist3 db -> exists i0 bl, iok i0 bl /\ stored db bl.
+Proof. exact ihist3_inv. Qed.
 Print Assumptions C19_history_invariant.
 
-Theorem C19_history_sorted : forall db, ihist db -> exists l, db_abs db = Ok l /\ asc 0 l.
-Proof. exact hist_sorted. Qed.
+Theorem C19_history_sorted : forall db, ihist3 db -> exists l, db_abs db = Ok l /\ asc 0 l.
+Proof. exact hist3_sorted. Qed.
 Print Assumptions C19_history_sorted.
 
 Theorem C19_history_write : forall db l limit ids w w',
-  ihist db -> db_abs db = Ok l -> last l 0 <= limit -> ids <> [] -> asc (last l 0) ids ->
+  ihist3 db -> db_abs db = Ok l -> ids <> [] -> asc (last (below limit l) 0) ids ->
   db_next_id db + N.of_nat (length ids) + 2 < 4294967296 ->
   new_index_writer db limit = Ok w -> iw_appends w ids = Ok w' ->
-  db_abs (iw_finish w' db) = Ok (l ++ ids).
-Proof. exact hist_write. Qed.
+  db_abs (iw_finish w' db) = Ok (below limit l ++ ids).
+Proof. exact hist3_write. Qed.
 Print Assumptions C19_history_write.
+
+Theorem C19_history_write_total : forall db l limit ids,
+  ihist3 db -> db_abs db = Ok l -> ids <> [] -> asc (last (below limit l) 0) ids ->
+  db_next_id db + N.of_nat (length ids) + 2 < 4294967296 ->
+  exists w w', new_index_writer db limit = Ok w /\ iw_appends w ids = Ok w'.
+Proof. exact hist3_write_total. Qed.
+Print Assumptions C19_history_write_total.
+
+Theorem C19_history_delete : forall db l keep ps limit d d',
+  ihist3 db -> db_abs db = Ok l -> below limit l = keep ++ rev ps ->
+  new_index_deleter db limit = Ok d -> id_pops db d ps = Ok d' ->
+  db_abs (id_finish d' db) = Ok keep.
+Proof. exact hist3_delete. Qed.
+Print Assumptions C19_history_delete.
+
+Theorem C19_history_delete_total : forall db l keep ps limit,
+  ihist3 db -> db_abs db = Ok l -> below limit l = keep ++ rev ps ->
+  exists d d', new_index_deleter db limit = Ok d /\ id_pops db d ps = Ok d'.
+Proof. exact hist3_delete_total. Qed.
+Print Assumptions C19_history_delete_total.
 
 (* pruning at any point of any history removes a prefix made only of ids below
    the tail and never an id >= tail *)
 Theorem C19_history_prune : forall db l tail,
-  ihist db -> db_abs db = Ok l ->
+  ihist3 db -> db_abs db = Ok l ->
   exists l1 l2, l = l1 ++ l2 /\ db_abs (fst (prune_entry db tail)) = Ok l2 /\
                 (forall x, In x l1 -> x < tail) /\ (forall x, In x l -> tail <= x -> In x l2).
-Proof. exact hist_prune. Qed.
+Proof. exact hist3_prune. Qed.
 Print Assumptions C19_history_prune.
+
+(* with a limit at or above the last id nothing is trimmed *)
+Theorem C19_below_id : forall limit l, asc 0 l -> last l 0 <= limit -> below limit l = l.
+Proof. exact below_id. Qed.
+Print Assumptions C19_below_id.
 
 (* NOT PROVED (modelled, compared with the implementation on every run, checked
    by the Go-side sorted-slice oracle):
-     index_pop_partial      : indexDeleter.pop across blocks (dropping an emptied
-                              block, reopening the previous one) and its finish:
-                              stored ids = removelast; only the single-block pop
-                              (C19_pop_abs) and the reopen step (C19_finish_parse) are proved
-     index_read_gt_partial  : indexReader.readGreaterThan / indexIterator over several
+     index_read_gt_partial  : indexReader.readGreaterThan / indexIterator over SEVERAL
                               blocks = least id above q / all ids above q; proved for one
-                              block (C19_read_gt_least, C19_seek_iter_yields_above)
-     limit trimming         : newBlockWriter / newIndexWriter / newIndexDeleter with a
-                              limit below the last id keep exactly the ids <= limit
-     reader totality        : iterators over corrupted (parsed) blocks never panic
-     histories with deleter sessions or limit-trimming reopen: [ihist] covers writer
-                              sessions and pruner runs only
+                              block (C19_read_gt_least, C19_seek_iter_yields_above), and the
+                              stored index is proved to decode to the sorted list (db_abs)
+     reader / writer totality on corrupted-but-parsed blocks (iterators never panic;
+                              pop returns an error class instead of panicking or spinning)
+     a writer session that appends nothing: excluded from [ihist3] (ids <> []); when the
+                              limit empties the only block, finish() writes nothing (latent)
    NOT MODELLED: per-element extensions, bitmaps, extension filters (filter_no_drop);
    of the pruner only pruneEntry/prunePrefix's per-key effect is modelled (not its
    goroutine, pause/resume protocol, batching or iterator re-opening). *)
